@@ -392,12 +392,16 @@ pub fn run(ctx: &Ctx) -> Report {
         E::or(balanced(l), balanced(r))
     }
     let mut stb = Stats::new();
-    for (n, framed) in if scale_factor() < 1.0 { vec![] } else { vec![(33_000usize, false), (33_000, true)] } {
+    for (n, framed) in if scale_factor() < 1.0 { vec![] } else { vec![(33_000usize, false), (33_000, true), (33_001, true)] } {
         let mut names: Vec<E> = (0..n).map(|i| E::T(if i % 2 == 0 { Tst::Name(format!("p{i}")) } else { Tst::IName(format!("p{i}")) })).collect();
         for again in [2usize, 40, 32_766, 32_768, 32_770, 32_999] {
             names.push(E::T(if again % 2 == 0 { Tst::Name(format!("p{again}")) } else { Tst::IName(format!("p{again}")) }));
         }
         let mut t = balanced(&names);
+        if n % 2 == 1 {
+            // one printer first: every later number has the other parity
+            t = E::and(E::or(E::A(Act::FPrint("early.out".into())), E::T(Tst::True)), t);
+        }
         t = E::and(t, E::A(if framed { Act::FPrint0("big.out".into()) } else { Act::Print }));
         let t0 = std::time::Instant::now();
         let v = judge_with(&t, false);
